@@ -188,7 +188,7 @@ def getArgLoop (maybe : Bool) : (fuel : Nat) → (ind : Nat) → (racc : Bytes) 
   | 0, _, _, _ => .error .fuel
   | _, _, _, [] => .error .eof
   | f + 1, ind, racc, c :: cs =>
-    let store : Except LexErr ArgRes :=
+    let store (_ : Unit) : Except LexErr ArgRes :=
       match storeChar (c :: cs) ind racc with
       | .error e => .error e
       | .ok (ind', racc', rest) => getArgLoop maybe f ind' racc' rest
@@ -210,7 +210,7 @@ def getArgLoop (maybe : Bool) : (fuel : Nat) → (ind : Nat) → (racc : Bytes) 
         else match skipComment 2 (ind + 2) r with
           | .error e => .error e
           | .ok (ind', r') => getArgLoop maybe f ind' racc r'
-      | _ => store
+      | _ => store ()
     else if c == 32 then
       if !racc.isEmpty then argDone racc ind (c :: cs) else getArgLoop maybe f (ind + 1) racc cs
     else if c == 9 then
@@ -226,7 +226,7 @@ def getArgLoop (maybe : Bool) : (fuel : Nat) → (ind : Nat) → (racc : Bytes) 
     else if c == 59 || c == 123 then
       if !racc.isEmpty || maybe then argDone racc ind (c :: cs) else .error .inStrExp
     else if c == 125 then .error .inStrExp
-    else store
+    else store ()
 
 def getArgument (maybe : Bool) (ind : Nat) (inp : Bytes) : Except LexErr ArgRes :=
   getArgLoop maybe (inp.length + 1) ind [] inp
@@ -329,8 +329,9 @@ def getKeyword (ind depth : Nat) (inp : Bytes) : Except LexErr KwRes :=
     match s with
     | 59 :: r => .ok { tok := .semi, word := [59], ind := ind + 1, depth := depth, rest := r }
     | 123 :: r =>
-      if depth + 1 > LY_MAX_BLOCK_DEPTH then .error .maxDepth
-      else .ok { tok := .lbrace, word := [123], ind := ind + 1, depth := depth + 1, rest := r }
+      let d := (depth + 1) % 4294967296      -- `ctx->depth++` on a `uint32_t`
+      if d > LY_MAX_BLOCK_DEPTH then .error .maxDepth
+      else .ok { tok := .lbrace, word := [123], ind := ind + 1, depth := d, rest := r }
     | 125 :: r => .ok { tok := .rbrace, word := [125], ind := ind + 1, depth := (depth + 4294967295) % 4294967296, rest := r }
     | _ =>
       let (m, k, dind) := matchKw s
